@@ -37,8 +37,9 @@ def write(mod, acc, tier, seed, wall, n_unknown, known_seen, verdict):
         "wall_s": round(wall, 2),
         "violations": int(n_unknown),
     }
-    os.makedirs(os.path.join(VERIF_DIR, "evidence"), exist_ok=True)
-    path = os.path.join(VERIF_DIR, "evidence", f"{mod.ID}.json")
+    edir = os.environ.get("VERIF_EVIDENCE_DIR") or os.path.join(VERIF_DIR, "evidence")
+    os.makedirs(edir, exist_ok=True)
+    path = os.path.join(edir, f"{mod.ID}.json")
     tmp = path + ".tmp"
     with open(tmp, "w") as fh:
         json.dump(doc, fh, indent=1, default=_default)
